@@ -315,3 +315,27 @@ impl PeerRegistry {
         }
     }
 }
+
+#[cfg(ckb_verif)]
+impl PeerRegistry {
+    /// verif hook: public entry to the crate-private `accept_peer`
+    pub fn verif_accept_peer(
+        &mut self,
+        remote_addr: Multiaddr,
+        session_id: SessionId,
+        raw_session_type: RawSessionType,
+        peer_store: &mut PeerStore,
+    ) -> Result<Option<Peer>, Error> {
+        self.accept_peer(remote_addr, session_id, raw_session_type, peer_store)
+    }
+
+    /// verif hook: public entry to the crate-private `remove_peer`
+    pub fn verif_remove_peer(&mut self, session_id: SessionId) -> Option<Peer> {
+        self.remove_peer(session_id)
+    }
+
+    /// verif hook: the constants of the eviction / block-relay-only rules
+    pub fn verif_constants() -> (usize, u32) {
+        (EVICTION_PROTECT_PEERS, MAX_OUTBOUND_BLOCK_RELAY)
+    }
+}
